@@ -34,7 +34,8 @@ PROP = {
                   "swimos_msgpack writer (rmp minimal integer encodings, str/bin/map/array/ext size classes, big integers as "
                   "ext 0/1, attributes as a map header + str names, map vs array bodies, slots as 2-arrays) and of the reader "
                   "composed with ValueMaterializer; proved for ALL float-free values: read(write(v) ++ rest) = (norm v, rest) "
-                  "where norm only re-kinds machine integers (C16_msgpack_value_roundtrip, _norm_equiv, _prefix_free); tied to the real "
+                  "where norm only re-kinds machine integers and is invisible to Value::eq, and every strict prefix of write(v) is rejected "
+                  "(C16_msgpack_tokens, C16_msgpack_value_roundtrip, _norm_equiv, _truncated_rejected — unconditional, token level included); tied to the real "
                   "crate by differential execution on written, extended, truncated and byte-mutated streams.",
     "level_note": "The proc-macro expansion is exercised (battery), not modelled; a newtype used as #[form(body)] is in the "
                   "executable model and the correspondence but outside the theorem's tyWF fragment; the Recon "
